@@ -41,9 +41,20 @@ def run(refs, threads=(1, 2, 3), shapes=(0, 1, 2), env=None):
             try:
                 # "--deadline": the explorer stops by itself and reports complete=0 (the unchanged tree needs seconds; a tree whose
                 # parallel regions have more scheduling points than the model knows - e.g. a dynamic loop schedule - does not finish)
-                rr = subprocess.run([exe, "--mode", "explore", "--input", str(k), "--threads", str(N), "--nested", "0", "--bound", "99",
-                                     "--onlybound", "1", "--yields", "0", "--lazy", "0", "--cost", "0", "--ref", refs[k], "--deadline", "240"],
-                                    capture_output=True, text=True, env=env, timeout=600)
+                # own session: the explorer forks a supervised child; on a timeout the whole group is killed
+                pr = subprocess.Popen([exe, "--mode", "explore", "--input", str(k), "--threads", str(N), "--nested", "0", "--bound", "99",
+                                       "--onlybound", "1", "--yields", "0", "--lazy", "0", "--cost", "0", "--ref", refs[k], "--deadline", "240"],
+                                      stdout=subprocess.PIPE, stderr=subprocess.PIPE, text=True, env=env, start_new_session=True)
+                try:
+                    so, se = pr.communicate(timeout=600)
+                except subprocess.TimeoutExpired:
+                    try:
+                        os.killpg(pr.pid, 9)
+                    except OSError:
+                        pass
+                    pr.communicate()
+                    raise
+                rr = subprocess.CompletedProcess(pr.args, pr.returncode, so, se)
             except subprocess.TimeoutExpired:
                 e.append("conformance run of the implementation did not finish for %s with %d threads: the code has more scheduling points "
                          "than the Promela model describes (model and code have diverged)" % (SHAPES[sh][1], N))
